@@ -122,7 +122,7 @@ func (c *BaseClient) signaller() (*signaller, error) {
 
 type signaller struct {
 	chConnAck  chan *pktConnAck
-	chPingResp chan *pktPingResp
+	chPingResp []chan *pktPingResp
 	chPubAck   map[uint16]chan *pktPubAck
 	chPubRec   map[uint16]chan *pktPubRec
 	chPubComp  map[uint16]chan *pktPubComp
@@ -137,11 +137,36 @@ func (s *signaller) ConnAck() chan *pktConnAck {
 
 	return s.chConnAck
 }
-func (s *signaller) PingResp() chan *pktPingResp {
-	s.mu.RLock()
-	defer s.mu.RUnlock()
 
-	return s.chPingResp
+// PingResp takes the waiter of the oldest outstanding ping.
+// PINGRESP has no identifier; responses are assigned to the ping requests in order.
+func (s *signaller) PingResp() (chan *pktPingResp, bool) {
+	s.mu.Lock()
+	defer s.mu.Unlock()
+
+	if len(s.chPingResp) == 0 {
+		return nil, false
+	}
+	ch := s.chPingResp[0]
+	s.chPingResp = s.chPingResp[1:]
+	return ch, true
+}
+
+func (s *signaller) addPingResp(ch chan *pktPingResp) {
+	s.mu.Lock()
+	s.chPingResp = append(s.chPingResp, ch)
+	s.mu.Unlock()
+}
+
+func (s *signaller) removePingResp(ch chan *pktPingResp) {
+	s.mu.Lock()
+	for i, c := range s.chPingResp {
+		if c == ch {
+			s.chPingResp = append(s.chPingResp[:i], s.chPingResp[i+1:]...)
+			break
+		}
+	}
+	s.mu.Unlock()
 }
 func (s *signaller) PubAck(id uint16) (chan *pktPubAck, bool) {
 	s.mu.RLock()
